@@ -80,10 +80,10 @@ PROPS = {
             "Meddly.DD.unionFull_eq_apply2", "Meddly.DD.interFull_eq_apply2", "Meddly.DD.diffFull_eq_apply2",
             "Meddly.DD.applySkip_eq_apply2",
         ],
-        # third run: SCREENING (DESIGN 8c) - 60 000 (thorough 600 000) cases searched by a harness-side pointwise test + the
+        # third run: SCREENING (DESIGN 8c) - 60 000 (thorough 200 000) cases searched by a harness-side pointwise test + the
         # harness-side recount of every dump; suspicious cases and every 400th are written out for the acceptor
         "quick": [fam("setops"), fam("setops", screen=400, cases=60000)],
-        "thorough": [fam("setops", "asan"), fam("setops", screen=400, cases=600000)],
+        "thorough": [fam("setops", "asan"), fam("setops", screen=400, cases=200000)],
         # minimised past failures (both repaired by fix: commits), replayed first on every run
         "corpus": [fam("setops", seed=1, case=9), fam("setops", seed=2, case=19)],
         "design_ref": "DESIGN.md §5 C04",
@@ -219,11 +219,11 @@ PROPS = {
         # regenerated from arrays.h / arrays.cc and node_headers.h / node_headers.cc on every run; a failed translator is a
         # broken obligation
         "gen": ["Gen.CounterArray", "Gen.NodeHeaders"],
-        # the screened oplife run (SCREENING, DESIGN 8c): 40 000 (thorough 400 000) histories searched by the harness's own
+        # the screened oplife run (SCREENING, DESIGN 8c): 40 000 (thorough 150 000) histories searched by the harness's own
         # recount / leak / held-function tests, the suspicious ones and every 400th written out for the acceptor
         "quick": [fam("nodelife"), fam("canon"), fam("oplife"), fam("gen", _only=ONLY_GC), fam("oplife", screen=400, cases=40000)],
         "thorough": [fam("nodelife", "asan"), fam("canon", "asan"), fam("oplife", "asan"), fam("gen", "asan", _only=ONLY_GC),
-                     fam("oplife", screen=400, cases=400000)],
+                     fam("oplife", screen=400, cases=150000)],
         "leanchecker": ["MeddlyModel.State.NodeLife", "MeddlyModel.State.CounterArray", "MeddlyModel.Props.CounterArrayGen",
                         "MeddlyModel.Props.NodeHeadersGen"],
         "level_text": "NodeLife state machine (per handle free | active(level, in, cc, children) | deleted(cc); explicit multiset of outside references; pessimistic / optimistic policy) with theorems for EVERY legal op list: counts_exact (incoming count = number of references), no_dangling, held_alive, content_stable (a held node keeps level and children), reuse_only_free, no_reuse_while_cached, all_reclaimed (no references and no cache marks => every handle free; pessimistic: no references => no active handle). CounterArray refines a plain array of naturals through the 8/16/32-bit widening and narrowing. Tie: (D) a real forest driven at the primitive level (createReducedNode / link / unlink / cache / uncache / dd_edge set-copy-clear) with the state of EVERY handle compared with the model after every step, counts pushed across 255 and 65535, handle table grown and shrunk; the real counter_array class driven op by op; (S) in the canon family every dump is recounted (parents + registered roots = reported incoming count), every held edge is re-evaluated against its target after GC churn, and after releasing all edges and clearing caches the forest must report 0 nodes (Recount.no_leak: for a dump accepted by the recount with no user edge left, 'every node has a positive count' is contradictory unless the store is empty - the highest node is referenced by nobody - so the 0-nodes expectation follows from the certificate plus the reclamation rule; Recount.root_counted: a held edge's target has a positive count); family oplife does the same over random HISTORIES of real operations (set algebra, COMPLEMENT, COPY between rules, POST/PRE_IMAGE, integer and EV+ arithmetic, comparisons; edge copies, assignments, releases, cache clears) over up to four forests with random rules and policies on STRUCTURED operands (identity patterns, redundant and fixed variables - the shapes on which operations take early exits and chain builders): exact recount of every forest at random points, every result against the pointwise oracle, every held edge keeps its function, every forest empty at the end.",
@@ -646,8 +646,8 @@ PROPS = {
      'quick': [{'family': 'reorder', 'flavor': 'plain', 'args': {}}, {'family': 'reorder', 'flavor': 'asan', 'args': {'cases': 110}},
                {'family': 'reorder', 'flavor': 'plain', 'args': {'only': 'relations', 'screen': 400, 'cases': 20000}}],
      'thorough': [{'family': 'reorder', 'flavor': 'plain', 'args': {}}, {'family': 'reorder', 'flavor': 'asan', 'args': {'cases': 300}},
-                  {'family': 'reorder', 'flavor': 'plain', 'args': {'only': 'relations', 'screen': 400, 'cases': 120000}},
-                  {'family': 'reorder', 'flavor': 'plain', 'args': {'screen': 400, 'cases': 60000}}],
+                  {'family': 'reorder', 'flavor': 'plain', 'args': {'only': 'relations', 'screen': 400, 'cases': 60000}},
+                  {'family': 'reorder', 'flavor': 'plain', 'args': {'screen': 400, 'cases': 30000}}],
      'leanchecker': ['MeddlyModel.Ops.Reorder'],
      'design_ref': 'DESIGN.md §5 C13',
      'level_text': 'Orders: every swap of an adjacent inversion (the test the heuristics apply to var2level of the target) removes exactly one inversion '
